@@ -26,10 +26,31 @@ impl<'a> PrettyPrinter<'a> {
         ctx: Context,
         field_access: FieldAccess<'a>,
     ) -> ArenaDoc<'a> {
-        // Comments within field access are not allowed outside code mode
-        self.convert_expr(ctx, field_access.target())
-            + self.arena.text(".")
-            + self.convert_ident(field_access.field())
+        // Only block comments can sit within a field access outside code mode. Keep them in place.
+        let mut doc = self.arena.nil();
+        let mut seen_dot = false;
+        for child in field_access.to_untyped().children() {
+            match child.kind() {
+                SyntaxKind::Space => {}
+                SyntaxKind::Dot => {
+                    doc += self.arena.text(".");
+                    seen_dot = true;
+                }
+                SyntaxKind::LineComment | SyntaxKind::BlockComment => {
+                    if !seen_dot {
+                        doc += self.arena.space();
+                    }
+                    doc += self.convert_comment(ctx, child);
+                }
+                _ if seen_dot => doc += self.convert_trivia_untyped(child),
+                _ => {
+                    if let Some(target) = child.cast() {
+                        doc += self.convert_expr(ctx, target);
+                    }
+                }
+            }
+        }
+        doc
     }
 
     /// Convert the node as dot chain, if in code, or in markup with at least two FieldAccess and one FuncCall.
@@ -41,6 +62,7 @@ impl<'a> PrettyPrinter<'a> {
         let mut dot_num = 0;
         let mut call_num = 0;
         let mut has_comment = false;
+        let mut has_line_comment = false;
         let chain: Vec<&SyntaxNode> = resolve_dot_chain(node).collect_vec();
         for node in &chain {
             if node.kind() == SyntaxKind::FieldAccess {
@@ -51,9 +73,12 @@ impl<'a> PrettyPrinter<'a> {
             if has_comment_children(node) {
                 has_comment = true;
             }
+            if (node.children()).any(|child| child.kind() == SyntaxKind::LineComment) {
+                has_line_comment = true;
+            }
         }
-        // The plain layout cannot carry comments: they would be lost.
-        if ctx.break_suppressed && !has_comment {
+        // The plain layout keeps block comments in place, but a line comment needs a line break.
+        if ctx.break_suppressed && !has_line_comment {
             return None;
         }
         if dot_num > 1 && call_num == 1 && !has_comment {
@@ -61,7 +86,7 @@ impl<'a> PrettyPrinter<'a> {
                 return Some(res);
             }
         }
-        if ctx.mode.is_markup() && (has_comment || dot_num > 1 && call_num > 0) {
+        if ctx.mode.is_markup() && dot_num > 1 && call_num > 0 {
             return Some(
                 self.parenthesize_if_necessary(ctx, |ctx| self.convert_dot_chain(ctx, node)),
             );
